@@ -40,7 +40,8 @@ class C03(Prop):
     id = "C03"
     lean_modules = ["PkgProofs.Props.C03"]
     theorems = [
-        "C03.contains_eq_spec", "C03.contains_override_eq_spec", "C03.compare_eq_spec",
+        "C03.contains_eq_spec", "C03.contains_eq_spec_strings", "C03.readClause_sound",
+        "C03.contains_override_eq_spec", "C03.compare_eq_spec",
         "C03.eq_eq_spec", "C03.ne_eq_spec", "C03.eq_wild_eq_spec", "C03.ne_wild_eq_spec", "C03.compat_eq_spec",
         "C03.le_eq_spec", "C03.ge_eq_spec", "C03.lt_eq_spec", "C03.gt_eq_spec", "C03.arbitrary_eq_spec",
         "C03.reparse_public", "C03.reparse_base", "C03.scan_epoch_release",
@@ -56,10 +57,11 @@ class C03(Prop):
     trusted = ["Version parsing/rendering (C02) and the version order (C01) as modelled in PkgModel/Version.lean",
                "str.isdigit / str.lower on the ASCII strings that reach _pad_version / _compare_arbitrary"]
     partial = [
-        "the link from Specifier.__init__ (S.parseSpec) to C03.Clause — 'the text after the operator scans as V, "
-        ".* only on a bare release after ==/!=, local label only after ==/!=, two release components after ~=' — is "
-        "not a theorem; it is tied by the spec.parse / spec.contains / s.spec.admits correspondence and by C12's "
-        "language theorems",
+        "that the text Specifier.__init__ stores always reads as a clause (parseSpec s = some sp -> readClause sp != "
+        "none: the text scans as V, .* only on a bare release after ==/!=, local label only after ==/!=, two release "
+        "components after ~=) is a hypothesis of contains_eq_spec_strings, not a theorem; it is decidable per clause "
+        "and measured on every generated clause by the spec.clause correspondence (an 'unreadable-clause' answer is a "
+        "mismatch), and C12 proves the accepted language",
         "str.isdigit / str.lower are modelled on ASCII (the strings reaching them are rendered versions)"]
     dist_limit = 250
     budget = {"quick": (30000, 30000), "thorough": (1000000, 500000)}
@@ -78,13 +80,13 @@ class C03(Prop):
                 yield g
         for _ in range(n - ngrid):
             k = rng.random()
-            if k < 0.70:
+            if k < 0.68:
                 yield self._contains_case(rng)
-            elif k < 0.78:
+            elif k < 0.80:
                 c = R.clause_struct(rng)
                 raw = R.arbitrary_text(rng, GV.struct(rng)) if c[0] == "===" else None
                 s = R.spell_clause(rng, *c, raw) if rng.random() < 0.6 else GS.malformed_clause(rng)
-                yield ("spec.parse", [core.enc(s)])
+                yield (rng.choice(["spec.parse", "spec.clause", "spec.clause"]), [core.enc(s)])
             elif k < 0.90:
                 yield ("spec.split", [core.enc(self._split_text(rng))])
             else:
@@ -201,6 +203,12 @@ class C03(Prop):
             except sp.InvalidSpecifier:
                 return "err InvalidSpecifier"
             return "ok " + core.enc(spec.operator) + " " + core.enc(spec.version)
+        if op == "spec.clause":
+            try:
+                spec = sp.Specifier(core.dec(args[0]))
+            except sp.InvalidSpecifier:
+                return "err InvalidSpecifier"
+            return "ok " + core.encb(spec.operator in ("==", "!=") and spec.version.endswith(".*"))
         if op == "spec.split":
             return enc_list(sp._version_split(core.dec(args[0])))
         if op == "spec.pad":
